@@ -157,7 +157,13 @@ fn check(s: &str) -> Result<bool, String> {
                 return Err(format!("error for {s:?} quotes the style as {style:?}, which does not contain the word {word:?}"));
             }
             let msg = e.to_string();
-            if !msg.contains(&word) {
+            // (the message may show the word as it is or in an escaped spelling - the structured
+            // `word` field above is what "names that word")
+            let esc_dbg: String = word.escape_debug().collect();
+            let esc_def: String = word.escape_default().collect();
+            let dbg = format!("{word:?}");
+            let dbg_inner = &dbg[1..dbg.len() - 1];
+            if !msg.contains(&word) && !msg.contains(&esc_dbg) && !msg.contains(&esc_def) && !msg.contains(dbg_inner) {
                 return Err(format!("error message {msg:?} does not name the word {word:?}"));
             }
         }
